@@ -464,10 +464,7 @@ func (x *Exec) lockOp(f *frame, in ssa.Instruction, c *ssa.CallCommon, args []Va
 	named, _ := ownerT.(*types.Named)
 	var mon *MonitorDecl
 	if named != nil && named.Obj().Pkg() != nil {
-		mon = x.L.Monitors[named.Obj().Pkg().Path()+"."+named.Obj().Name()]
-		if mon != nil && mon.Mu != fieldName {
-			mon = nil
-		}
+		mon = x.L.Monitors[named.Obj().Pkg().Path()+"."+named.Obj().Name()+"."+fieldName]
 	}
 	ov := x.val(owner)
 	if x.fc != nil && x.fc.Opts["atomic"] == fieldName {
